@@ -36,6 +36,8 @@ EXCS = ["ValueError", "FloatingPointError", "MemoryError", "KeyboardInterrupt"]
 METHODS = ["auto", "SLSQP", "trust-constr", "L-BFGS-B", "highs"]
 WHERES = (["entry"] + [f"{t}@{k}" for t in ("fun", "jac") for k in (1, 2, 3)] + [f"{t}@{k}" for t in ("con", "conjac", "hess") for k in (1, 2)]
           + ["compile_hessian", "compile_jacobian", "compile_expression", "lp_extract", "linprog"]
+          # the failing attempt passes a per-call keyword (callback=) that the library rejects by raising
+          + ["kwarg"]
           # the fault is raised INSIDE the compiled callable (below optyx's own wrappers), at its k-th call
           + [f"in:{t}@{k}" for t in ("compile_expression", "compile_jacobian", "compile_hessian") for k in (1, 2)])
 
@@ -92,6 +94,44 @@ def models():
         dict(tag="lp-max", obj=("bin", "+", ("bin", "+", ("bin", "*", ("const", S("c1")), X), Y), ("num", S("c0"))), sense="max",
              cons=[("le", ("bin", "+", X, Y), ("num", S("r0"))), ("eq", ("bin", "-", X, Y), ("num", S("r1")))], bounds={"x": (0.0, S("ux")), "y": (0.0, None)}),
     ]
+
+
+class KwMinimize(stubs.MinimizeStub):
+    """a library that raises when it is handed a callback (per-call keyword of the failing attempt)"""
+
+    def __init__(self, exc):
+        super().__init__("fixed")
+        self.exc_name, self.injected = exc, False
+
+    def __call__(self, fun, x0, **kw):
+        if kw.get("callback") is not None:
+            self.injected = True
+            self.calls.append(dict(fun=fun, x0=x0, **kw))
+            raise make_exc(self.exc_name)
+        return super().__call__(fun, x0, **kw)
+
+
+class KwLinprog(stubs.LinprogStub):
+    def __init__(self, exc):
+        super().__init__("fixed")
+        self.exc_name, self.injected = exc, False
+
+    def __call__(self, c, **kw):
+        if kw.get("callback") is not None:
+            self.injected = True
+            self.calls.append(dict(c=c, **kw))
+            raise make_exc(self.exc_name)
+        return super().__call__(c, **kw)
+
+
+def plain_args(calls_m, calls_l):
+    """the non-callable, non-array arguments of the recorded library calls"""
+    out = []
+    for c in calls_m:
+        out.append(("minimize", c.get("method"), c.get("callback") is not None, repr(sorted((c.get("options") or {}).items())), tuple(sorted((c.get("kw") or {}).keys()))))
+    for c in calls_l:
+        out.append(("linprog", c.get("method"), tuple(sorted((c.get("kw") or {}).keys()))))
+    return out
 
 
 def make_exc(name):
@@ -163,6 +203,10 @@ def run_case(model, where, exc_name, method, planted=False):
         show0, lim0 = warnings.showwarning, sys.getrecursionlimit()
         ms = FaultyMinimize(where, exc_name)
         ls = stubs.LinprogStub("raise", exc=make_exc(exc_name)) if where == "linprog" else stubs.LinprogStub("fixed")
+        skw = {}
+        if where == "kwarg":
+            ms, ls = KwMinimize(exc_name), KwLinprog(exc_name)
+            skw = dict(callback=lambda *a, **k: None)
         patches = []
         injected = {"n": 0}
 
@@ -189,7 +233,7 @@ def run_case(model, where, exc_name, method, planted=False):
                 warnings.simplefilter("ignore")
                 show_in = warnings.showwarning
                 try:
-                    sol = p.solve(method=method)
+                    sol = p.solve(method=method, **skw)
                     outcome = ("returned", sol.status.name)
                 except BaseException as e:  # noqa: BLE001
                     if type(e).__name__ in ("PathAbort", "ExplorationBudget", "ItemTimeout", "SymbolicConcretisation"):
@@ -203,12 +247,13 @@ def run_case(model, where, exc_name, method, planted=False):
         finally:
             for obj, name, orig in patches:
                 setattr(obj, name, orig)
-        happened = ms.injected or injected["n"] > 0 or (where == "linprog" and len(ls.calls) > 0)
+        happened = ms.injected or injected["n"] > 0 or (where == "linprog" and len(ls.calls) > 0) or getattr(ls, "injected", False)
         state = dict(show_restored=(show_after is show_in), limit=(sys.getrecursionlimit() == lim0), outcome=outcome, happened=happened)
         # the next solve, benign stubs, against the untouched copy
         a = c13.capture(p, method)
         bb = c13.capture(ref_p, method)
         cols = [v.name for v in ref_p.variables]
+        state["plain"] = (plain_args(a[0], a[1]), plain_args(bb[0], bb[1]))
         return state, a, bb, cols
 
     for dec, labels, pc, (state, a, bb, cols) in K.explore(path, max_paths=300):
@@ -228,6 +273,8 @@ def run_case(model, where, exc_name, method, planted=False):
             res.append(violation(f"C20|recursionlimit|{sig0}", f"{tag}: recursion limit changed", payload))
         else:
             res.append(proved(f"{tag}: showwarning and recursion limit restored"))
+        if state["plain"][0] != state["plain"][1]:
+            res.append(violation(f"C20|next-solve-arguments|{sig0}", f"{tag}: the next solve hands the library {state['plain'][0]}, an untouched copy {state['plain'][1]}", payload))
         res += c13.compare_calls(a, bb, cols, val, f"{tag}: next solve == untouched copy", f"C20|next-solve|{sig0}", payload, allv, pc)
     return res
 
@@ -327,6 +374,10 @@ def replay(payload):
     show0, lim0 = warnings.showwarning, sys.getrecursionlimit()
     ms = FaultyMinimize(where, exc_name)
     ls = stubs.LinprogStub("raise", exc=make_exc(exc_name)) if where == "linprog" else stubs.LinprogStub("fixed")
+    skw = {}
+    if where == "kwarg":
+        ms, ls = KwMinimize(exc_name), KwLinprog(exc_name)
+        skw = dict(callback=lambda *a, **k: None)
     patches = []
 
     def raiser(*a, **k):
@@ -345,7 +396,7 @@ def replay(payload):
                     warnings.simplefilter("ignore")
                     inner = warnings.showwarning
                     try:
-                        sol = p.solve(method=method)
+                        sol = p.solve(method=method, **skw)
                         outcome = ("returned", sol.status.name)
                     except BaseException as e:  # noqa: BLE001
                         chain, cur = [], e
@@ -367,6 +418,8 @@ def replay(payload):
         return True, f"after {exc_name} at {where} ({method}) the call {outcome[0]} {outcome[1]}"
     a, bb = c13.capture(p, method), c13.capture(ref_p, method)
     (ma, la, ea), (mb, lb, eb) = a, bb
+    if plain_args(ma, la) != plain_args(mb, lb):
+        return True, f"after {exc_name} at {where} ({method}) the next solve hands the library {plain_args(ma, la)}, an untouched copy {plain_args(mb, lb)}"
     if type(ea) is not type(eb) or len(ma) != len(mb) or len(la) != len(lb):
         return True, f"next solve differs from an untouched copy: {ea!r}/{len(ma)}/{len(la)} vs {eb!r}/{len(mb)}/{len(lb)}"
     for ca, cb in zip(la, lb):
